@@ -1,2 +1,3 @@
 -- Root of the `GPy` library: imports every property-theorem module.
 import GPy.C07.Props
+import GPy.C15.Props
